@@ -85,7 +85,7 @@ Theorem C10_single_error : forall cfg h mc req,
   forall e, e <> E402 -> sp_applies cfg mc req e = true ->
   (forall e', e' <> e -> sp_applies cfg mc req e' = false) ->
   sp_oscore_drop cfg req = false -> sp_long_token req = false ->
-  mc && (m_type req =? NR_CON) = false ->
+  mc && (m_type req =? NR_CON) = false -> sp_async cfg req = false ->
   forall out, dp_allowed cfg h mc req out ->
   out = dp_fail cfg mc req (sp_rflags cfg req e) (dp_err_code e).
 Proof. exact single_error_reply. Qed.
@@ -97,7 +97,7 @@ Theorem C10_unknown_critical_or_repeat : forall cfg h mc req,
   sp_applies cfg mc req E402 = true ->
   (forall e', e' <> E402 -> sp_applies cfg mc req e' = false) ->
   sp_oscore_drop cfg req = false -> sp_long_token req = false ->
-  mc && (m_type req =? NR_CON) = false ->
+  mc && (m_type req =? NR_CON) = false -> sp_async cfg req = false ->
   forall out, dp_allowed cfg h mc req out ->
   (m_type req = NR_CON /\ out = [sp_err402_direct cfg req]) \/
   (exists rf, out = dp_fail cfg mc req rf 130) \/
@@ -180,6 +180,15 @@ Theorem C10_handler_views : forall cfg req o, In o (sp_views cfg req) ->
   dp_uri_path cfg o = dp_uri_path cfg (m_opts req) /\ dp_query cfg o = dp_query cfg (m_opts req).
 Proof. exact handler_views. Qed.
 Print Assumptions C10_handler_views.
+
+(* with tables that keep the separators escaped (the check forces exactly these four bits on
+   the tables it takes from the library), one Uri-Path / Uri-Query option never contributes a
+   separator to the look-up key / query string *)
+Theorem C10_one_option_no_separator : forall cfg seg,
+  dp_tables_ok cfg -> wfb seg ->
+  ~ In 47 (dp_uri_path cfg [(DP_URI_PATH, seg)]) /\ ~ In 38 (dp_query cfg [(DP_URI_QUERY, seg)]).
+Proof. exact one_option_no_separator. Qed.
+Print Assumptions C10_one_option_no_separator.
 
 (* the resource: registered path first; nothing iff no such path, not /.well-known/core and no
    unknown-resource handler for the method *)
